@@ -46,17 +46,18 @@ def c13_r1(ctx, f):
 
 def c13_t1(ctx, f):
     rid = "C13.T1"
-    ctx.rule(rid, "(fit_width, fit_height) -> FitTo::{Size(w,h), Width(w), Height(h), Original}, used for size and rendering")
+    ctx.rule(rid, "fit requests by partial evaluation through the public setters: to_pixmap asks the rasteriser for the largest "
+                  "square satisfying the latest fit_width/fit_height values (same request for size and rendering)")
     fn = anchor_fn(ctx, rid, f, IMGB + "::to_pixmap")
-    adt = f.adts.get(IMGB)
-    if not fn or not adt:
+    dflt = "<%s as std::default::Default>::default" % IMGB
+    setw, seth = IMGB + "::fit_width", IMGB + "::fit_height"
+    if not fn:
         return
-    fields = [x["name"] for x in adt["variants"][0]["fields"]]
+    for p_ in (dflt, setw, seth):
+        if f.fn(p_) is None:
+            ctx.abstain(rid, "%s not found (renamed or moved): fit requests cannot be driven through the public setters" % p_, where_fn(fn))
+            return
     from . import peval
-    def opt(v):
-        if v is None:
-            return ("adt", "std::option::Option", 0, "None", ())
-        return ("adt", "std::option::Option", 1, "Some", (mk_int("u32", v),))
 
     def side(variant, payload):
         """the square side a FitTo request yields for a square document (None = original size): Width(w) and Height(w) are the
@@ -69,37 +70,55 @@ def c13_t1(ctx, f):
             return min(payload)
         return ("?", variant, payload)
 
-    for (W, H) in ((111, 222), (222, 111)):
-        for hw in (True, False):
-            for hh in (True, False):
-                vals = {"fit_width": opt(W if hw else None), "fit_height": opt(H if hh else None)}
-                selfv = ("adt", IMGB, 0, "ImageBuilder", tuple(vals.get(n, TOP) for n in fields))
-                F = peval.PEval(f, max_steps=400000)
-                F.lenient = True       # usvg/resvg/tiny-skia calls are opaque
-                F.record_trace = True
-                F.summaries["convert::svg::SvgBuilder::to_str"] = lambda pe_, st_, a_, t_: TOP  # the document is decided by C12 rules
-                r = F.run(fn.path, [("ref", ("const", selfv)), TOP])
-                fits = []
-                for e in r.trace:
-                    if e["depth"] != 1:
-                        continue
-                    for a in e["dargs"]:
-                        if a != TOP and a[0] == "adt" and a[1].endswith("FitTo"):
-                            fits.append((e["callee"], a[3], [to_py(x) for x in a[4]]))
-                inst = "width=%s,height=%s" % (W if hw else "unset", H if hh else "unset")
-                exp = min(W, H) if (hw and hh) else (W if hw else (H if hh else None))
-                users = sorted({c.split("::")[-1] for c, _, _ in fits})
-                agree = bool(fits) and all(side(v, p) == exp for _, v, p in fits)
-                ok = agree and "render" in users and "fit_to" in users
-                if (agree or not fits) and not ok and r.kind != "ret":
-                    # the folder did not get as far as the rendering call (code outside its language): what it saw agrees
-                    ctx.abstain(rid, "%s: to_pixmap not folded up to the render call (%s: %s)" % (inst, r.kind, r.why), where_fn(fn))
-                    continue
-                ctx.check(rid, ok, "%s/fit/%s" % (fn.path, inst.replace(str(W), "w").replace(str(H), "h")), where_fn(fn), fn.path, inst,
-                          "the fit request does not yield the largest square satisfying it (or size computation and rendering use "
-                          "different requests)", expected="square side %s" % (exp if exp is not None else "original"),
-                          found=[(c.split("::")[-1], v, p) for c, v, p in fits] or str(r),
-                          sample="%s -> side %s via %s" % (inst, exp if exp is not None else "original", sorted({v for _, v, _ in fits})))
+    programs = [[], [("w", 111)], [("h", 222)], [("w", 111), ("h", 222)], [("h", 222), ("w", 111)], [("w", 222), ("h", 111)],
+                [("h", 111), ("w", 222)], [("w", 87), ("w", 348)], [("h", 348), ("h", 87)], [("w", 60), ("h", 90), ("w", 500)],
+                [("h", 500), ("w", 90), ("h", 60)]]
+    for prog in programs:
+        inst = ".".join("fit_%s(%d)" % ("width" if k == "w" else "height", v) for k, v in prog) or "no fit request"
+        F = peval.PEval(f, max_steps=600000)
+        F.lenient = True       # usvg/resvg/tiny-skia calls are opaque
+        F.record_trace = False
+        r0 = F.run(dflt, [])
+        if r0.kind != "ret" or r0.value == TOP:
+            ctx.abstain(rid, "%s: ImageBuilder::default does not fold (%s: %s)" % (inst, r0.kind, r0.why), where_fn(fn))
+            continue
+        b = r0.value
+        okset = True
+        for k, v in prog:
+            rs = F.run(setw if k == "w" else seth, [("cell", 0), mk_int("u32", v)], cells=[b])
+            if rs.kind != "ret":
+                ctx.abstain(rid, "%s: setter does not fold (%s: %s)" % (inst, rs.kind, rs.why), where_fn(fn))
+                okset = False
+                break
+            b = rs.cells[0]
+        if not okset:
+            continue
+        F.record_trace = True
+        F.summaries["convert::svg::SvgBuilder::to_str"] = lambda pe_, st_, a_, t_: TOP  # the document is decided by C12 rules
+        r = F.run(fn.path, [("ref", ("const", b)), TOP])
+        fits = []
+        for e in r.trace:
+            if e["depth"] != 1:
+                continue
+            for a_ in e["dargs"]:
+                if a_ != TOP and a_[0] == "adt" and a_[1].endswith("FitTo"):
+                    fits.append((e["callee"], a_[3], [to_py(x) for x in a_[4]]))
+        lw = [v for k, v in prog if k == "w"]
+        lh = [v for k, v in prog if k == "h"]
+        w, h = (lw[-1] if lw else None), (lh[-1] if lh else None)
+        exp = min(w, h) if (w is not None and h is not None) else (w if w is not None else h)
+        users = sorted({c.split("::")[-1] for c, _, _ in fits})
+        agree = bool(fits) and all(side(v, p) == exp for _, v, p in fits)
+        ok = agree and "render" in users and "fit_to" in users
+        if (agree or not fits) and not ok and r.kind != "ret":
+            ctx.abstain(rid, "%s: to_pixmap not folded up to the render call (%s: %s)" % (inst, r.kind, r.why), where_fn(fn))
+            continue
+        ctx.check(rid, ok, "%s/fit/%s" % (fn.path, "+".join(k for k, v in prog) or "none"), where_fn(fn), fn.path, inst,
+                  "the fit request handed to the rasteriser is not the largest square satisfying the latest fit_width/fit_height "
+                  "values (or size computation and rendering use different requests)",
+                  expected="square side %s" % (exp if exp is not None else "original"),
+                  found=[(c.split("::")[-1], v, p) for c, v, p in fits] or str(r),
+                  sample="%s -> side %s via %s" % (inst, exp if exp is not None else "original", sorted({v for _, v, _ in fits})))
 
 
 def c13_r2(ctx, f):
